@@ -2,8 +2,8 @@
 import os
 import vlib, engine_common as ec
 
-TB = ["Print Assumptions: C01_core_sound, C01_core_unguarded_refuted, C01_core_no_panic closed under the global context",
-      "C01_core_sound is about Engine/Core.v (inputs + Normal queries); for firewalls, projections, external inputs and unordered groups the full model Engine/Model.v is validated against the code and the from-scratch oracle but its soundness is not proved (partial)",
+TB = ["Print Assumptions: C01_core_sound, C01_core_unguarded_refuted, C01_core_no_panic, C01_fw_sound, C01_fw_unguarded_refuted closed under the global context",
+      "C01_core_sound is about Engine/Core.v (inputs + Normal queries), C01_fw_sound about Engine/Fw.v (inputs + Normal + Firewall queries incl. the transitive-firewall-callee bookkeeping), both compared with the real engine on this run; for projections, external inputs and unordered groups the full model Engine/Model.v is validated against the code and the from-scratch oracle but its soundness is not proved (partial)",
       ] + ec.ENGINE_TB
 
 def run(ctx):
